@@ -78,12 +78,17 @@ Definition distinct_delims (d : delims) : bool :=
 
 Definition nonempty_list {A} (l : list A) : bool := match l with [] => false | _ => true end.
 
+(* the ISA is never split at the component separator (ISA16 IS that separator),
+   so its values only need to avoid the terminator and the element separator *)
+Definition free_of_TE (d : delims) (v : str) : bool :=
+  negb (mem_ascii (seg_term d) v) && negb (mem_ascii (ele_term d) v).
+
 Definition clean_seg (d : delims) (s : seg) : bool :=
   match sid s with
   | Some id =>
       nonempty id && free_of d id &&
-      forallb (fun c => nonempty_list c && forallb (free_of d) c) (els s) &&
-      (* the ISA has no components *)
-      (if str_eqb id (cs "ISA") then forallb (fun c => length c =? 1) (els s) else true)
+      (if str_eqb id (cs "ISA")
+       then forallb (fun c => (length c =? 1) && forallb (free_of_TE d) c) (els s)
+       else forallb (fun c => nonempty_list c && forallb (free_of d) c) (els s))
   | None => false
   end.
